@@ -229,6 +229,39 @@ def run(rep, tier, seed, replay=None):
             rep.violation('C19: %s beyond rounding (degree %d)' % (OBS.get(code, code), len(p) - 1),
                           {'kind': 'correspondence', 'observation': OBS.get(code, str(code)),
                            'points': [common.chex(z) for z in p], 't': common.fhex(t)}, key='corr-%d' % code)
+        # ---------------- polynomial2bezier on coefficient sequences of every scalar type (exact judge on the curve)
+        from fractions import Fraction
+        p2bkinds = {}
+        for i in range((60 if tier == 'quick' else 600) * boost):
+            deg = rng.choice([1, 2, 3])
+            ci = [complex(rng.randint(-9, 9), rng.randint(-9, 9)) if rng.random() < 0.5 else rng.randint(-9, 9) for _ in range(deg + 1)]
+            if ci[0] == 0:
+                ci[0] = 1
+            allreal = all(not isinstance(c, complex) for c in ci)
+            how = rng.choice(['list', 'tuple', 'ndarray', 'poly1d'])
+            arg = {'list': list(ci), 'tuple': tuple(ci), 'ndarray': np.array(ci), 'poly1d': np.poly1d(ci)}[how]
+            p2bkinds['%s/%s' % (how, 'int' if allreal else 'complex-int')] = p2bkinds.get('%s/%s' % (how, 'int' if allreal else 'complex-int'), 0) + 1
+            rj = {'kind': 'p2b-direct', 'coefficients_highest_first': [str(c) for c in ci], 'container': how}
+            try:
+                cps = [complex(z) for z in bz.polynomial2bezier(arg)]
+                scale = sum(abs(c) for c in ci) + 1
+                bad = None
+                if len(cps) != deg + 1:
+                    bad = ('number of control points', len(cps), deg + 1)
+                for tt in ((0.0, 0.25, 0.5, 1.0, 1 / 3) if bad is None else ()):
+                    ft = Fraction(tt)
+                    ex = complex(float(sum(Fraction(int(complex(c).real)) * ft ** (deg - k) for k, c in enumerate(ci))),
+                                 float(sum(Fraction(int(complex(c).imag)) * ft ** (deg - k) for k, c in enumerate(ci))))
+                    got = complex(bz.bezier_point(tuple(cps), tt))
+                    if abs(got - ex) > 1e-12 * scale:
+                        bad = (tt, got, ex); break
+            except Exception as e:
+                rep.violation('polynomial2bezier raised %s on integer coefficients' % type(e).__name__, dict(rj, error=repr(e)), key='p2b-exception')
+                continue
+            if bad is not None:
+                rep.violation('polynomial2bezier(%s of ints) does not describe that polynomial: at %r got %r, exact %r' % (how, bad[0], bad[1], bad[2]),
+                              rj, key='p2b-not-the-polynomial')
+        rep.cov['polynomial2bezier_direct_cases'] = p2bkinds
         # ---------------- polyroots with prescribed root sets
         nroot = (250 if tier == 'quick' else 2500) * boost
         rcases, rmeta = [], []
